@@ -2,7 +2,8 @@
 # usage: lib/confirm_r2.sh Cxx — confirm the second-round independent mutations of /tmp/mut-Cxxb/out/m*/ in a scratch worktree
 # (suite passes with the change; the demo TestR2CxxM<k> fails with it and passes without) and keep the confirmed ones as
 # seeded/Cxx-r2m<k>/ (patch.diff, demo, meta.json).  The demo's package clause decides where it is placed.
-p=$1; out=/tmp/mut-${p}b/out
+# A later round: lib/confirm_r2.sh Cxx r3 c  (round tag, suffix of the scratch directory /tmp/mut-Cxx<suffix>).
+p=$1; rd=${2:-r2}; sfx=${3:-b}; out=/tmp/mut-${p}${sfx}/out; RD=R${rd#r}
 export GOFLAGS=-mod=mod GOPROXY=off GOSUMDB=off GOTOOLCHAIN=local
 V="$(cd "$(dirname "$0")/.." && pwd)"
 W=/tmp/confirm-r2-$p-$$
@@ -17,8 +18,8 @@ for m in "$out"/m*/; do
   [ -f "$m/patch.diff" ] && [ -n "$demo" ] || { echo "$p m$k: incomplete"; continue; }
   pkg=$(grep -m1 '^package ' "$demo" | awk '{print $2}')
   case "$pkg" in atp|atp_test) dir=atp;; main) dir=cmd/arcaflow-codegen;; *) dir=schema;; esac
-  dest=$dir/zz_r2_${lc}_m${k}_demo_test.go
-  rx="TestR2${p}M${k}"
+  dest=$dir/zz_${rd}_${lc}_m${k}_demo_test.go
+  rx="Test${RD}${p}M${k}"
   grep -q "func $rx" "$demo" || rx=$(grep -o 'func Test[A-Za-z0-9_]*' "$demo" | head -1 | awk '{print $2}')
   git -C $W checkout -q -- . ; git -C $W clean -fdq
   git -C $W apply "$m/patch.diff" 2>/dev/null || { echo "$p m$k: patch does not apply"; continue; }
@@ -31,17 +32,18 @@ for m in "$out"/m*/; do
   rm -f "$W/$dest"
   echo "$p m$k: suite_with_change=$s1 demo_with_change=$d1 demo_without_change=$d0"
   if [ $s1 = pass ] && [ $d1 = fail ] && [ $d0 = pass ]; then
-    t=$V/seeded/$p-r2m$k; mkdir -p $t
+    t=$V/seeded/$p-${rd}m$k; mkdir -p $t
     cp "$m/patch.diff" $t/patch.diff; cp "$demo" $t/demo_test.go
-    /usr/bin/python3 - "$m/meta.json" "$t/meta.json" "$dest" "$dir" "$rx" "$p" <<'PY'
+    /usr/bin/python3 - "$m/meta.json" "$t/meta.json" "$dest" "$dir" "$rx" "$p" "$rd" <<'PY'
 import json, sys
-src, dst, d, tdir, r, p = sys.argv[1:7]
+src, dst, d, tdir, r, p, rd = sys.argv[1:8]
 try:
     m = json.load(open(src))
 except Exception:
     m = {}
 m["property"] = p
-m["origin"] = "second-round independent sub-agent given only the property text and a scratch worktree (asked to look beyond the obvious sites)"
+m["round"] = rd
+m["origin"] = "independent sub-agent of a later round (see \"round\") given only the property text and a scratch worktree (asked to look beyond the obvious sites)"
 m["confirmed_here"] = {"ran": "lib/confirm_r2.sh in a scratch worktree of /repo: git apply; full suite with the change; demo copied to %s and run with `go test -run '%s' .` in %s with the change and on the unchanged tree" % (d, r, tdir),
                        "suite_passes_with_change": True, "demo_fails_with_change": True, "demo_passes_without_change": True}
 json.dump(m, open(dst, "w"), indent=1)
